@@ -83,6 +83,7 @@ type TypeContract struct {
 	Name    string
 	Pkg     string
 	Guarded map[string][]string // mutex field -> guarded "Type.field" names
+	Closed  bool                // interface: every implementation is among the loaded packages (stated assumption)
 }
 
 type Contracts struct {
@@ -96,7 +97,7 @@ type Contracts struct {
 
 var clauseKW = map[string]bool{"serves": true, "requires": true, "ensures": true, "let": true, "loop": true,
 	"assert": true, "safety": true, "inline": true, "atomic": true, "pure": true, "trusted": true, "guarded_by": true,
-	"uses": true, "opt": true, "split": true}
+	"uses": true, "opt": true, "split": true, "closed": true}
 
 func fkey(pkg, name string) string { return pkg + " " + name }
 
@@ -249,6 +250,11 @@ func (cs *Contracts) loadFile(path, pkg string) error {
 				}
 				continue
 			}
+			if kw == "closed" {
+				curT.Closed = true
+				cs.Scan = append(cs.Scan, fmt.Sprintf("closed-world interface %s (calls through it write at most what its loaded implementations write)", curT.Name))
+				continue
+			}
 			return fmt.Errorf("%s:%d: unexpected %q in type block", path, l.line, kw)
 		}
 		if curF == nil {
@@ -369,6 +375,10 @@ func mkClause(text, file string, line int) (*Clause, error) {
 	}
 	if m := labelRe.FindStringSubmatch(text); m != nil && !strings.Contains(m[1], "(") {
 		cl.Label = m[1]
+		text = m[2]
+	}
+	if m := propTagRe.FindStringSubmatch(text); m != nil {
+		cl.Props = strings.Fields(strings.ReplaceAll(m[1], ",", " "))
 		text = m[2]
 	}
 	e, err := ParseSpec(text)
